@@ -36,6 +36,17 @@ def run(ctx):
         else:
             ctx.traces_ok += 1
     ctx.sample({"cred_case": recs[len(recs) // 2]})
+    # tunnels to different sites opened through one upstream proxy at the same time (Pipeline.tla CredConc)
+    for rnd in range(2 if q else 8):
+        out = ctx.run_vh(binp, ["c06-conc"], timeout=600)
+        out, crashed = ctx.nocrash(out, "C06:crash")
+        for r in out:
+            ctx.evaluations += r.get("seen", 1)
+            ctx.nontrivial.add("conc:%d" % rnd)
+            if not r["ok"]:
+                ctx.violation("C06:site-auth:concurrent-connects", r)
+            else:
+                ctx.traces_ok += 1
     ctx.exhaustive = not q
 
 
